@@ -355,35 +355,46 @@ func (i *introspectionVisitor) EnterRootOperationTypeDefinition(ref int) {
 	}
 }
 
+// typeKindOfNode returns the introspection kind of a node which defines a type, and false for
+// every other node.
+func typeKindOfNode(kind ast.NodeKind) (__TypeKind, bool) {
+	switch kind {
+	case ast.NodeKindScalarTypeDefinition:
+		return SCALAR, true
+	case ast.NodeKindObjectTypeDefinition:
+		return OBJECT, true
+	case ast.NodeKindEnumTypeDefinition:
+		return ENUM, true
+	case ast.NodeKindInterfaceTypeDefinition:
+		return INTERFACE, true
+	case ast.NodeKindUnionTypeDefinition:
+		return UNION, true
+	case ast.NodeKindInputObjectTypeDefinition:
+		return INPUTOBJECT, true
+	}
+	return SCALAR, false
+}
+
 func (i *introspectionVisitor) TypeRef(typeRef int) TypeRef {
 	switch i.definition.Types[typeRef].TypeKind {
 	case ast.TypeKindNamed:
 		name := i.definition.TypeNameBytes(typeRef)
-		node, exists := i.definition.Index.FirstNodeByNameBytes(name)
-		if !exists {
-			return TypeRef{TypeName: "__Type"}
+		// the index also holds directive definitions and type extensions under their names:
+		// the kind comes from the first entry that defines a type
+		nodes, _ := i.definition.Index.NodesByNameBytes(name)
+		for _, node := range nodes {
+			typeKind, definesType := typeKindOfNode(node.Kind)
+			if !definesType {
+				continue
+			}
+			nameStr := unsafebytes.BytesToString(name)
+			return TypeRef{
+				Kind:     typeKind,
+				Name:     &nameStr,
+				TypeName: "__Type",
+			}
 		}
-		var typeKind __TypeKind
-		switch node.Kind {
-		case ast.NodeKindScalarTypeDefinition:
-			typeKind = SCALAR
-		case ast.NodeKindObjectTypeDefinition:
-			typeKind = OBJECT
-		case ast.NodeKindEnumTypeDefinition:
-			typeKind = ENUM
-		case ast.NodeKindInterfaceTypeDefinition:
-			typeKind = INTERFACE
-		case ast.NodeKindUnionTypeDefinition:
-			typeKind = UNION
-		case ast.NodeKindInputObjectTypeDefinition:
-			typeKind = INPUTOBJECT
-		}
-		nameStr := unsafebytes.BytesToString(name)
-		return TypeRef{
-			Kind:     typeKind,
-			Name:     &nameStr,
-			TypeName: "__Type",
-		}
+		return TypeRef{TypeName: "__Type"}
 	case ast.TypeKindNonNull:
 		ofType := i.TypeRef(i.definition.Types[typeRef].OfType)
 		return TypeRef{
